@@ -210,7 +210,7 @@ def build_met_file(cfg):
         days=cfg['jjj'] - 1, hours=cfg['hour'])
     tf = f.createVariable('TFLAG', 'i', ('TSTEP', 'VAR', 'DATE-TIME'))
     for t in range(nt):
-        b = t0 + dtm.timedelta(hours=t)
+        b = t0 + dtm.timedelta(hours=t * cfg.get('dth', 1))
         tf[t, :, 0] = int(b.strftime('%Y%j'))
         tf[t, :, 1] = b.hour * 10000
     j = np.arange(1, ny + 1)[:, None]
@@ -228,7 +228,7 @@ def build_met_file(cfg):
                     v[t, k] = ((((s + 1) * 5 + t + 1) * 5 + k + 1) * 5 + j) \
                         * 5 + i
         v.units = 'x'
-    f.TSTEP = 10000
+    f.TSTEP = 10000 * cfg.get('dth', 1)
     if cfg['fmt'] == 'wind':
         f.LSTAGGER = np.array(cfg['lstag'], dtype='>i')
     if cfg['fmt'] == 'cloud_rain':
